@@ -321,7 +321,7 @@ def explore(ctx, res, pid):
         k += shard
     with multiprocessing.get_context('fork').Pool(nproc) as pool:
         results = pool.map(work, jobs, chunksize=1)
-    digs = [d for out in results for d in out]
+    digs = corpus_digests(pid) + [d for out in results for d in out]
     for d in digs:
         res.evaluations += 1
         res.count(d['kind'])
@@ -357,6 +357,33 @@ def explore(ctx, res, pid):
             uniq.append(v)
         seen.add(k)
     res.oracle_violations[:] = uniq
+
+
+def corpus_digests(pid):
+    """corpus/shell-*.json (scenario + schedule of earlier minimised failures, e.g. of the seeded changes): run first"""
+    import os
+    out = []
+    cdir = os.path.join(os.path.dirname(os.path.dirname(os.path.abspath(__file__))), 'corpus')
+    if not os.path.isdir(cdir):
+        return out
+    import logging
+    logging.disable(logging.CRITICAL)
+    for fn in sorted(os.listdir(cdir)):
+        if fn.startswith('shell-') and fn.endswith('.json'):
+            try:
+                d = json.load(open(os.path.join(cdir, fn)))
+                sc = scenario_from_json(d['scenario'])
+            except Exception:
+                continue
+            import sys
+            saved = sys.stderr
+            sys.stderr = open(os.devnull, 'w')       # the library prints tracebacks of handled protocol errors
+            try:
+                r = shellrun.run(sc, dsched.ListChooser(d['schedule']))
+            finally:
+                sys.stderr = saved
+            out.append(digest(r, pid))
+    return out
 
 
 def norm_class(c, wire_id):
